@@ -13,6 +13,33 @@ FINISH = dict(level="proof",
                    "databases and of shipped example/test kernels on shipped models of their ISA; non-trivial = kernel with >= 1 LCD")
 
 
+def running_sum(rng, isa):
+    D = rng.choice([0, 8, 16, -8])
+    K = rng.choice([8, 16, 4])
+    if isa == "x86":
+        B, V = rng.sample(["rbx", "rax", "rcx", "rdi"], 2)
+        cell = "%d(%%%s)" % (D, B) if D else "(%%%s)" % B
+        st = rng.choice(["addq %%%s, %s", "addq %%%s, %s", "subq %%%s, %s", "movq %%%s, %s"]) % (V, cell)
+        ld = "movq %s, %%%s" % (cell, V)
+        bump = rng.choice(["addq $%d, %%%s" % (K, B), "subq $%d, %%%s" % (K, B), "incq %%%s" % B, "leaq %d(%%%s), %%%s" % (K, B, B)])
+        fill = ["cmpq %rdx, %" + B, "jne .L1", "addq %rsi, %r9", "imulq %r8, %r8"]
+    else:
+        B, V = rng.sample(["x1", "x2", "x3", "x4"], 2)
+        cell = "[%s, #%d]" % (B, D) if D else "[%s]" % B
+        st = "str %s, %s" % (V, cell)
+        ld = "ldr %s, %s" % (V, cell)
+        bump = rng.choice(["add %s, %s, #%d" % (B, B, K), "sub %s, %s, #%d" % (B, B, K)])
+        fill = ["cmp x9, " + B, "b.ne .L1", "add x12, x12, x13", "mul x14, x14, x14"]
+    body = [st, ld] if rng.random() < 0.8 else [ld, st]
+    if rng.random() < 0.85:
+        body.insert(rng.choice([0, 1, 2, 2, 2]), bump)
+    if rng.random() < 0.4:
+        body.insert(body.index(ld) + 1, ("addq %%rsi, %%%s" % V) if isa == "x86" else "add %s, %s, x12" % (V, V))
+    for f in rng.sample(fill, rng.choice([0, 1, 2, 2])):
+        body.append(f)
+    return "\n".join(body) + "\n"
+
+
 def run(ctx):
     depcheck.prepare(ctx, "Props/C14.v")
     ctx.compile_theorems("Props/C05.v")
@@ -30,6 +57,46 @@ def run(ctx):
             ctx.sample({"kernel": case["text"], "rotations_checked": n, "lcd": case["lcd"]})
         cases.append(case)
     depcheck.run_shards(ctx, cases, "synthetic")
+    # generated store / pointer-bump / load kernels on the REAL ISA databases (tracked register changes, read-modify-write
+    # stores, flags): memory dependencies whose bookkeeping must not depend on where the loop is cut
+    import c06
+    import models as _models
+    avail = _models.nonempty_archs()
+    memcases = []
+    for i in range(ctx.n(50, 600)):
+        isa = ctx.rng.choice(["x86", "aarch64"])
+        arch = [m for m in (c06.X86_MODELS if isa == "x86" else c06.A64_MODELS) if m in avail][0]
+        pipe = deps.Pipeline(ctx, isa, arch=arch)
+        text, info = c06.gen(ctx.rng, isa)
+        # close the loop: a reload feeding the stored value makes the store/load pair part of a cycle
+        text += ("addq %rsi, %rdx\n" if isa == "x86" else "add x9, x9, x12\n")
+        try:
+            n = depcheck.rotation_oracle(ctx, pipe, text, ctx.rng.random() < 0.3, isa, "generated memory kernel on " + arch)
+            case, kernel, dg = deps.build_case(pipe, text, False)
+            case["origin"] = "generated memory kernel on " + arch
+            memcases.append(case)
+            if case["lcd"]:
+                ctx.nontriv(text)
+        except Exception as e:  # noqa
+            ctx.coverage.setdefault("memory_kernel_errors", []).append(repr(e)[:200])
+    # running-sum kernels: a (read-modify-write) store, a reload of the same cell that feeds the store again, and a
+    # pointer bump somewhere in the body -- the store/load pair lies ON a loop-carried cycle, so losing or inventing the
+    # store-to-load edge at one cut changes the LCD figure itself
+    for i in range(ctx.n(24, 240)):
+        isa = "x86" if i % 3 else "aarch64"
+        arch = [m for m in (c06.X86_MODELS if isa == "x86" else c06.A64_MODELS) if m in avail][0]
+        pipe = deps.Pipeline(ctx, isa, arch=arch)
+        text = running_sum(ctx.rng, isa)
+        try:
+            depcheck.rotation_oracle(ctx, pipe, text, ctx.rng.random() < 0.3, isa, "running-sum kernel on " + arch)
+            case, kernel, dg = deps.build_case(pipe, text, False)
+            case["origin"] = "running-sum kernel on " + arch
+            memcases.append(case)
+            if case["lcd"]:
+                ctx.nontriv(text)
+        except Exception as e:  # noqa
+            ctx.coverage.setdefault("memory_kernel_errors", []).append(repr(e)[:200])
+    depcheck.run_shards(ctx, memcases, "memory", size=10)
     import pressure, models
     pairs = []
     for f in pressure.kernel_files():
